@@ -25,7 +25,7 @@ claimed = {
 }
 na = {
  "C11": "text round trip needs a denotation of byte sequences through strconv/bytes/io interfaces; recursive sequence functions are outside what the solvers decide here (DESIGN.md section 6)",
- "C12": "parsers are not under contract yet (io.ByteScanner model not built); agreement with math/big's grammar has no contract-expressible oracle",
+ "C12": "the parsers go through io.ByteScanner/strings.Reader/strconv/fmt; the byte-reader model was not built so no obligation is generated for them; the exact-value half needs a denotation of digit strings (as C11) and agreement with math/big's grammar has no independent specification (DESIGN.md section 6)",
  "C13": "oracle is the layout behaviour of fmt/strconv; a contract could only restate the implementation (DESIGN.md section 6)",
  "C15": "binary floating point (float64, math/big.Float) is outside the theories the solvers decide here (DESIGN.md section 6)",
 }
